@@ -37,6 +37,12 @@ def run(ctx, report):
     from . import dfxp_reader_fold
     report.section("generated DFXP documents", dfxp_reader_fold.run, ctx, report, {
         "italics": ("R-DOC-STYLE", "1"), "roundtrip": ("R-ROUNDTRIP", "1")})
+    from . import scc_e2e_fold
+    report.section("SCC reader end to end (pop-on)", scc_e2e_fold.run, ctx, report, {
+        "italics": ("R-E2E", "4", "italic nodes are balanced and cover exactly the characters sent while italics were on")})
+    report.section("SCC reader end to end (roll-up)", scc_e2e_fold.run_part, ctx, report, "rolling", {
+        "balanced": ("R-E2E", "4", "every caption of roll-up streams with mid-row italics has balanced style nodes, with and without "
+                                   "roll-up simulation, the roll-up code sent on every row or once")})
     from . import sami_reader_fold
     report.section("generated SAMI documents", sami_reader_fold.run, ctx, report, {
         "styles": ("R-DOC-STYLE", "1"), "balanced": ("R-SPAN-TYPESTATE", "2"), "roundtrip": ("R-ROUNDTRIP", "1")})
